@@ -1,6 +1,6 @@
 (* Dispatch.v — one entry point `run op arg` for every executable model and spec.
    Used identically by the extracted runner (coq/extract) and by `Eval vm_compute` re-evaluation. *)
-From Verif Require Import PyVal Rows Enc ComparableGen AsIndicesGen Order Sort SortSpec Dedup DedupSpec Basics SetOps SetSpec Joins Relational HashJoins Reductions GroupSpec Machines Selects Transforms Reshape.
+From Verif Require Import PyVal Rows Enc ComparableGen AsIndicesGen Order Sort SortSpec Dedup DedupSpec Basics SetOps SetSpec Joins Relational HashJoins Reductions GroupSpec Machines Selects Transforms Reshape Csv.
 Open Scope Z_scope.
 
 Definition run_cmp (arg : val) : val :=
@@ -774,6 +774,54 @@ Definition run_reshape (arg : val) : val :=
   | _ => bad_input
   end.
 
+(* ---- csv (C15) ------------------------------------------------------------------------------------------------------ *)
+Definition dec_dialect (dl qc q : val) : option dialect :=
+  match dl, qc, dec_Z q with
+  | VStr [a], VStr [b], Some n =>
+      let qm := if n =? 0 then Some QMinimal else if n =? 1 then Some QAll else if n =? 2 then Some QNonNumeric
+                else if n =? 3 then Some QNone else None in
+      match qm with Some m => Some {| d_delim := a; d_quote := b; d_quoting := m |} | None => None end
+  | _, _, _ => None
+  end.
+
+(* a cell as the writer sees it: (text of str(cell), is it a number) ; None -> empty text *)
+Definition csv_cell (v : val) : option (list Z * bool) :=
+  match v with
+  | VNone => Some ([], false)
+  | VStr s => Some (s, false)
+  | VNum KBool _ => match py_str v with Some s => Some (s, true) | None => None end
+  | VNum KInt _ => match py_str v with Some s => Some (s, true) | None => None end
+  | _ => None
+  end.
+
+(* csv_write: (delimiter, quotechar, quoting 0..3, rows) -> text | ("!err","Error") *)
+Definition run_csv_write (arg : val) : val :=
+  match arg with
+  | VSeq _ [dl; qc; q; VSeq _ rows] =>
+      match dec_dialect dl qc q, dec_all (fun r => match r with VSeq _ cells => all_some (map csv_cell cells) | _ => None end) rows with
+      | Some d, Some rs => match write_rows d rs with
+                           | Some txt => VStr txt
+                           | None => vtuple [vstr "!err"; vstr "Error"]
+                           end
+      | _, _ => bad_input
+      end
+  | _ => bad_input
+  end.
+
+(* csv_parse: (delimiter, quotechar, quoting, text) -> list of rows of text | ("!err","Error") *)
+Definition run_csv_parse (arg : val) : val :=
+  match arg with
+  | VSeq _ [dl; qc; q; VStr txt] =>
+      match dec_dialect dl qc q with
+      | Some d => match parse d txt with
+                  | Some rows => vlist (map (fun r => vtuple (map VStr r)) rows)
+                  | None => vtuple [vstr "!err"; vstr "Error"]
+                  end
+      | None => bad_input
+      end
+  | _ => bad_input
+  end.
+
 Definition run (op : list Z) (arg : val) : val :=
   if zs_eqb op "cmp" then run_cmp arg
   else if zs_eqb op "sort" then run_sort arg
@@ -801,6 +849,8 @@ Definition run (op : list Z) (arg : val) : val :=
   else if zs_eqb op "const_true" then vbool true
   else if zs_eqb op "transform" then run_transform arg
   else if zs_eqb op "reshape" then run_reshape arg
+  else if zs_eqb op "csv_write" then run_csv_write arg
+  else if zs_eqb op "csv_parse" then run_csv_parse arg
   else if zs_eqb op "addfields" then run_addfields arg
   else if zs_eqb op "select" then run_select arg
   else if zs_eqb op "rowslice" then run_rowslice arg
